@@ -42,7 +42,8 @@ struct FPlan
     int tz_min = 0; // local time zone, minutes east of UTC (TZ is set accordingly; days are local days)
     int pre_bytes = 0; // >0: the log file exists before the first start and holds that many bytes of binary-looking data
     int pre_age_days = 0; // ... last written that many days before the run
-    int obstacle = 0; // >0: a directory named like rotated file <index> of the first day exists (C05, C10)
+    int obstacle = 0; // >0: a directory named like rotated file <index> of the first day exists (C05, C06, C10)
+    bool obstacle_gz = false; // ... like the compressed form of that rotated file (its compression cannot be created)
     std::string sibling; // base name of a second rotating sink working in the same directory (C06), or empty
     int start_ms_of_day = 12 * 3600 * 1000;
     std::vector<FOp> ops;
